@@ -188,6 +188,8 @@ pub struct KnownFinding {
 	pub property: String,
 	pub status: String,
 	pub what: String,
+	/// the finding's own reproducer (property-specific form), executed on every run
+	pub replay: String,
 }
 
 pub struct Run {
@@ -233,6 +235,7 @@ pub fn load_known() -> Vec<KnownFinding> {
 					property: v["property"].as_str().unwrap_or("").to_owned(),
 					status: v["status"].as_str().unwrap_or("").to_owned(),
 					what: v["what"].as_str().unwrap_or("").to_owned(),
+					replay: v["replay"].as_str().unwrap_or("").to_owned(),
 				});
 			}
 		}
@@ -469,6 +472,29 @@ impl Run {
 			"failures": fails.load(Ordering::SeqCst), "wall_s": t0.elapsed().as_secs_f64()}));
 	}
 
+	/// recorded findings (status "known") of this run's property
+	pub fn known_for_prop(&self) -> Vec<KnownFinding> {
+		self.known.iter().filter(|k| k.property == self.prop && k.status == "known").cloned().collect()
+	}
+	/// Run every recorded finding's own reproducer through `decide` (returns the verdict for the reproducer text).
+	/// Still failing in the recorded way => KNOWN-FINDING line; passing => silent; failing differently => violation.
+	pub fn reproduce_known(&self, decide: impl Fn(&KnownFinding) -> CaseOut) {
+		for k in self.known_for_prop() {
+			let out = decide(&k);
+			self.record("known-reproducers", &out);
+			match &out.verdict {
+				Verdict::Known(id) if *id == k.id => self.report_known(&k.id),
+				Verdict::Known(other) => {
+					// explained by another recorded finding: still a recorded failure, report that one
+					self.report_known(other)
+				}
+				Verdict::Fail(why) => self.add_violation("known-reproducers", &out.text, &format!("reproducer of {} now fails differently: {why}", k.id), None, Value::Null),
+				Verdict::Pass | Verdict::Discard(_) => {
+					eprintln!("note: recorded finding {} no longer reproduces", k.id);
+				}
+			}
+		}
+	}
 	/// Print KNOWN-FINDING line (once per id per run)
 	pub fn report_known(&self, id: &str) {
 		println!("KNOWN-FINDING: property={} {} [{}]", self.prop, self.known_what(id), id);
